@@ -56,6 +56,80 @@ def guard_facts(conds, peer):
     return nz, bigger, zero_cur
 
 
+OWN = 'self.max_pdu_length'
+# every order type of (own, peer) with 0 = "no limit" on either side: the adoption logic touches the two values through
+# truth tests, comparisons and min / max only, so its result on these points is its result everywhere
+ADOPTION_POINTS = [(o_, p_) for o_ in (0, 4096, 16384) for p_ in (0, 1024, 4096, 16384, 65536)]
+
+
+def effective_limit(own: int, peer: int) -> int:
+    """PS3.8 D.1: what the sender has to respect is the smaller of the two maxima, 0 meaning none"""
+    if peer == 0:
+        return own
+    return peer if own == 0 else min(own, peer)
+
+
+def peer_term_of(texts) -> str:
+    """the longest attribute chain ending in .maximum_length_received mentioned in the given terms"""
+    best = ''
+    for t in texts:
+        try:
+            e = ast.parse(t[1:] if t[:1] in '+-' else t, mode='eval').body
+        except SyntaxError:
+            continue
+        for n in ast.walk(e):
+            if isinstance(n, ast.Attribute) and n.attr == 'maximum_length_received':
+                u = ast.unparse(n)
+                if len(u) > len(best):
+                    best = u
+    return best
+
+
+def tabulate_limit(events, peer: str, points=ADOPTION_POINTS):
+    """events: [(value term, path conditions)] of the stores that decide a limit (the adoption, or the echo).  For each point of
+    (own, peer) the value stored on the paths whose conditions about the two limits hold there -> {point: set of results};
+    a result is an int, ('raises', exception name) or ('kept',) when no store applies.  None when a term is outside what
+    arith.eval_value understands."""
+    from ..arith import CannotEvaluate, eval_value
+    out = {}
+    for own, pv in points:
+        env = {OWN: own, peer: pv}
+        res = set()
+        for term, conds in events:
+            applies = True
+            for cn in conds:
+                if cn.startswith('exc:') or cn[:1] not in '+-':
+                    continue
+                if OWN not in cn and peer not in cn:
+                    continue
+                try:
+                    v = eval_value(ast.parse(cn[1:], mode='eval').body, env)
+                except CannotEvaluate:
+                    return None
+                except SyntaxError:
+                    return None
+                except Exception:
+                    applies = False       # the test itself raises here: another path's business
+                    break
+                if bool(v) != (cn[0] == '+'):
+                    applies = False
+                    break
+            if not applies:
+                continue
+            try:
+                r = eval_value(ast.parse(term, mode='eval').body, env)
+            except (CannotEvaluate, SyntaxError):
+                return None
+            except Exception as exc:
+                res.add(('raises', type(exc).__name__))
+                continue
+            if not isinstance(r, int) or isinstance(r, bool):
+                return None
+            res.add(r)
+        out[(own, pv)] = res or {('kept',)}
+    return out
+
+
 def limit_selection_problems(repo, hier):
     """Association.__init__ (helpers included): the limit the association starts with is the value it was given or the entity's
     configured one, chosen by ``is None`` tests -- never by truth, because 0 is a value (PS3.8 D.1: no limit)
@@ -143,7 +217,25 @@ def run(repo, rep):
         own_zero_handled = False
         if not adopts:
             probs.append('the peer\'s maximum length is never adopted: PDUs longer than the peer accepts may be sent')
-        for e, s in adopts:
+        # by value: the limit in force after the exchange, at every order type of (own, peer)
+        peer_t = peer_term_of([e.args[0] for e, s in adopts] + [cn for e, s in adopts for cn in e.conds])
+        table = tabulate_limit([(e.args[0], e.conds) for e, s in adopts], peer_t) if adopts and peer_t else None
+        if table is not None:
+            for (own_, pv_), res_ in sorted(table.items()):
+                want_ = effective_limit(own_, pv_)
+                for r_ in sorted(res_, key=str):
+                    got_ = own_ if r_ == ('kept',) else r_
+                    if isinstance(got_, tuple):
+                        probs.append('own limit %d, peer announces %d: adopting the peer\'s value raises %s (the association is not '
+                                     'established although both values are legal)' % (own_, pv_, got_[1]))
+                    elif got_ != want_:
+                        probs.append('own limit %d, peer announces %d (0 = none): the limit in force becomes %d, PS3.8 D.1: %d'
+                                     % (own_, pv_, got_, want_))
+            facts[cls] = (True, True)
+            rep.check(not probs, 'C10.X1', 'asceprovider:%s.%s:adoption' % (cls, meth), f.loc(),
+                      'limit in force = smaller non-zero of (own, peer) at all %d order types of the two values (%d store path(s))'
+                      % (len(table), len(adopts)), '; '.join(sorted(set(probs))[:4]))
+        for e, s in (adopts if table is None else []):
             peer = e.args[0]
             if 'maximum_length_received' not in peer:
                 probs.append('max_pdu_length is overwritten with %s, which is not the peer\'s announced maximum' % peer)
@@ -159,12 +251,13 @@ def run(repo, rep):
                 own_zero_handled = True
         # is an own limit of 0 (no limit) handled?  some adoption path must allow current == 0
         cond_txt = ' '.join(cn for e, s in adopts for cn in e.conds)
-        if adopts and not own_zero_handled:
+        if adopts and not own_zero_handled and table is None:
             probs.append('with the own limit configured as 0 (none) the peer\'s limit is never adopted ("0 > peer" is false): '
                          'PDUs are sent without regard to the peer\'s maximum')
-        facts[cls] = (zero_tested, own_zero_handled)
-        rep.check(not probs, 'C10.X1', 'asceprovider:%s.%s:adoption' % (cls, meth), f.loc(),
-                  'adopted only if peer != 0 and (own > peer or own == 0) on %d path(s)' % len(adopts), '; '.join(sorted(set(probs))))
+        if table is None:
+            facts[cls] = (zero_tested, own_zero_handled)
+            rep.check(not probs, 'C10.X1', 'asceprovider:%s.%s:adoption' % (cls, meth), f.loc(),
+                      'adopted only if peer != 0 and (own > peer or own == 0) on %d path(s)' % len(adopts), '; '.join(sorted(set(probs))))
         # X2
         p2 = []
         if cls == 'AssociationRequester':
@@ -184,7 +277,20 @@ def run(repo, rep):
             echoes = [(e, s) for e, s in c.log if e.kind == 'store' and e.callee.endswith('.maximum_length_received')]
             if not echoes:
                 p2.append('the acceptor never writes the value it announces')
-            for e, s in echoes:
+            etable = tabulate_limit([(e.args[0], e.conds) for e, s in echoes], peer_t) if echoes and peer_t else None
+            if etable is not None:
+                for (own_, pv_), res_ in sorted(etable.items()):
+                    want_ = effective_limit(own_, pv_)
+                    for r_ in sorted(res_, key=str):
+                        if r_ == ('kept',):
+                            p2.append('own limit %d, peer announces %d: the acceptor leaves the requestor\'s value in the reply' % (own_, pv_))
+                        elif isinstance(r_, tuple):
+                            p2.append('own limit %d, peer announces %d: computing the announced value raises %s' % (own_, pv_, r_[1]))
+                        elif r_ != want_ and not (r_ == own_):
+                            # (announcing the configured limit unclamped is allowed: it is what the acceptor can receive)
+                            p2.append('own limit %d, peer announces %d: the acceptor announces %d, neither its own limit nor the limit '
+                                      'in force (%d)' % (own_, pv_, r_, want_))
+            for e, s in (echoes if etable is None else []):
                 # at the time of the echo the value must be the (possibly clamped) own limit
                 v = e.args[0]
                 ok = v == 'self.max_pdu_length' or 'maximum_length_received' in v
